@@ -29,6 +29,9 @@ class AbsSocket:
     def shutdown(self, how):
         raise NotImplementedError("external")
 
+    def connect(self, address):
+        raise NotImplementedError("external")
+
 
 class AbsSettings:
     """Connection settings as the TCP classes read them: address and port."""
